@@ -82,6 +82,10 @@ func (fs *FS) addMount(p string, mountFS hackpadfs.FS) error {
 
 // Mount implements hackpadfs.MountFS
 func (fs *FS) Mount(path string) (mount hackpadfs.FS, subPath string) {
+	if !hackpadfs.ValidPath(path) {
+		// do not normalize an invalid path into a valid sub-path, the root FS rejects it as is
+		return fs.rootFS, path
+	}
 	mount, mountPath, subPath := fs.mountPoint(path)
 	if mountPath == "." {
 		return mount, path
@@ -145,6 +149,9 @@ func (fs *FS) MountPoints() []Point {
 
 // Rename implements hackpadfs.RenameFS
 func (fs *FS) Rename(oldname, newname string) error {
+	if !hackpadfs.ValidPath(oldname) || !hackpadfs.ValidPath(newname) {
+		return &hackpadfs.LinkError{Op: "rename", Old: oldname, New: newname, Err: hackpadfs.ErrInvalid}
+	}
 	oldMount, oldPoint, oldSubPath := fs.mountPoint(oldname)
 	newMount, newPoint, newSubPath := fs.mountPoint(newname)
 	oldInfo, err := hackpadfs.Stat(oldMount, oldSubPath)
